@@ -316,25 +316,28 @@ def stepInstr (sys : Sys) (s : State) (t : Tid) (th : Thread) (pc : Nat) (sub : 
     let isAux := kind.isAux
     let key : Key := { site := site, const := const, aux := isAux, args := args }
     let push (r : Ref) : List Ref := if isAux then rest else r :: rest
+    -- `result = func(*args, **kwargs)` (thread-local, merged into the lookup that missed)
+    let miss : State :=
+      match created s t site const args kind with
+      | none =>
+        emit (setThread s t { th with phase := nextPhase len (pc + 1), stack := rest })
+          (.ccContains t site args false)
+      | some (s', r) =>
+        emit (setThread s' t { th with phase := .run pc (.store r) }) (.ccContains t site args false)
     match sub with
     | .look =>
-      -- `if key in self._call_cache:`; on a miss also `result = func(*args, **kwargs)` (thread-local)
+      -- `if key in self._call_cache:`
       match ccLookup sys.mode s.stubs s.callCache key with
       | some _ =>
         emit (setThread s t { th with phase := .run pc .get }) (.ccContains t site args true)
-      | none =>
-        match created s t site const args kind with
-        | none =>
-          emit (setThread s t { th with phase := nextPhase len (pc + 1), stack := rest })
-            (.ccContains t site args false)
-        | some (s', r) =>
-          emit (setThread s' t { th with phase := .run pc (.store r) }) (.ccContains t site args false)
+      | none => miss
     | .get =>
-      -- `return self._call_cache[key]` (entries are never removed)
+      -- `return self._call_cache[key]` (entries are never removed, so the second lookup succeeds; the fallback
+      -- only totalises the function)
       match ccLookup sys.mode s.stubs s.callCache key with
       | some v =>
         emit (setThread s t { th with phase := nextPhase len (pc + 1), stack := push v }) (.ccGet t site v)
-      | none => emit (setThread s t { th with phase := nextPhase len (pc + 1), stack := rest }) (.noop t)
+      | none => miss
     | .store r =>
       -- `self._call_cache[key] = result`
       let s' := { s with callCache := ccPut sys.mode s.stubs s.callCache key r }
